@@ -236,7 +236,7 @@ void harness::run_case(const eng::Raw& raw, eng::Ctx& ctx)
 	const size_t firstStep = raw.size() - k;
 
 	gen::Limits lim;
-	lim.maxStates = ctx.tier() ? 4 : 3;
+	lim.maxStates = ctx.tier() ? 5 : 4;
 	lim.arity3 = false;
 	std::vector<gen::TACase> autos(3);
 	for (size_t t = 0; t < 3; ++t) {
